@@ -1166,3 +1166,140 @@ func reachableBlocks(b *ssa.BasicBlock) []*ssa.BasicBlock {
 	}
 	return out
 }
+
+// ruleDoublingOnlyOnTimeout (C17): "intervals ... double after each timeout": the function that
+// doubles the retransmission interval is called only where a retransmission timer has fired - in a
+// block entered through the select case that received from a time.Timer's channel. A call on a
+// receive path (an ACK, a retransmission of the peer) doubles the interval without any timeout
+// having occurred.
+func ruleDoublingOnlyOnTimeout(c *Ctx, r *Report) {
+	const rule = "doubling-only-on-timeout"
+	n := 0
+	for _, s := range c.CallsToName("internal/handshake.handleRetransmitTimeout") {
+		call, ok := s.Call.(*ssa.Call)
+		if !ok || !inModule(s.Fn) {
+			continue
+		}
+		n++
+		r.Sites++
+		fn := s.Fn
+		onTimer := false
+		for _, b := range fn.Blocks {
+			iff, isIf := b.Instrs[len(b.Instrs)-1].(*ssa.If)
+			if !isIf {
+				continue
+			}
+			bo, isB := iff.Cond.(*ssa.BinOp)
+			if !isB || bo.Op != token.EQL {
+				continue
+			}
+			ex, isEx := bo.X.(*ssa.Extract)
+			k, isK := constInt(bo.Y)
+			if !isEx || !isK || ex.Index != 0 {
+				continue
+			}
+			sel, isSel := ex.Tuple.(*ssa.Select)
+			if !isSel || int(k) >= len(sel.States) {
+				continue
+			}
+			ts := b.Succs[0]
+			if !(len(ts.Preds) == 1 && (ts == call.Block() || ts.Dominates(call.Block()))) {
+				continue
+			}
+			if _, f, base, ok := fieldLoad(sel.States[k].Chan); ok && f == "C" && strings.HasSuffix(namedOrType(derefType(base.Type())), "time.Timer") {
+				onTimer = true
+			}
+		}
+		r.Check(onTimer, rule, short(fn), c.ipos(call), "the interval is doubled where a retransmission timer fired", "the retransmission interval is doubled on a path that no timer expiry leads to: every received ACK or retransmission of the peer doubles it, so after a burst of retransmissions both sides sit at the 60 s cap without a single timeout having occurred")
+	}
+	r.Floor(rule, n, 2)
+}
+
+// ruleAwaitLoopsRetransmit (C17, C02): an endpoint that has sent a flight and awaits the reply in a
+// loop of its own (before a state machine runs: the dual-stack client's version negotiation) is
+// its own retransmission timer. In every function of the connection package that writes packets
+// and then loops on the bare read-and-buffer step, the read inside the loop runs under a context
+// bounded by context.WithTimeout, a re-send of the packets is reachable inside the loop, and the
+// timeout handed to WithTimeout is a loop-carried value that is doubled in the loop and compared
+// with the 60 s cap. Without this a lost ClientHello (or a lost first answer) leaves the client
+// silent until its context expires.
+func ruleAwaitLoopsRetransmit(c *Ctx, r *Report) {
+	const rule = "await-loops-retransmit"
+	n := 0
+	for _, s := range c.CallsTo(nameHasSuffix("dtls.Conn).readAndBufferNoFSM")) {
+		rd, ok := s.Call.(*ssa.Call)
+		if !ok {
+			continue
+		}
+		fn := s.Fn
+		var loop *natLoop
+		for _, l := range naturalLoops(fn) {
+			if l.blocks[rd.Block()] && (loop == nil || len(l.blocks) < len(loop.blocks)) {
+				loop = l
+			}
+		}
+		if loop == nil {
+			continue
+		}
+		writes := findCalls(fn, nameHasSuffix("dtls.Conn).writePackets"))
+		sentBefore := false
+		for _, w := range writes {
+			if !loop.blocks[w.Block()] && w.Block().Dominates(loop.header) {
+				sentBefore = true
+			}
+		}
+		if !sentBefore {
+			continue // nothing was sent: nothing to retransmit (the server side waits for the first hello)
+		}
+		n++
+		r.Sites += len(fn.Blocks)
+		resend := false
+		for _, w := range writes {
+			if loop.blocks[w.Block()] {
+				resend = true
+			}
+		}
+		r.Check(resend, rule, short(fn)+":resend", c.ipos(rd), "the flight is sent again inside the wait loop", "the function sends a flight and then waits for the answer in a loop that never sends it again: there is no retransmission timer for this flight, a lost datagram (either way) leaves the endpoint silent until its context expires, and a peer that needs a second datagram to make progress never gets one")
+		// bounded read
+		var timeout ssa.Value
+		for _, l := range c.Origins(rd.Call.Args[len(rd.Call.Args)-1], 0) {
+			if ex, ok := l.(*ssa.Extract); ok {
+				if cl, ok := ex.Tuple.(*ssa.Call); ok && calleeName(&cl.Call) == "context.WithTimeout" && len(cl.Call.Args) == 2 {
+					timeout = cl.Call.Args[1]
+				}
+			}
+			if cl, ok := l.(*ssa.Call); ok && calleeName(&cl.Call) == "context.WithTimeout" && len(cl.Call.Args) == 2 {
+				timeout = cl.Call.Args[1]
+			}
+		}
+		r.Check(timeout != nil, rule, short(fn)+":bounded-read", c.ipos(rd), "each wait is bounded by context.WithTimeout", "the read inside the wait loop is not bounded by a timeout: the loop cannot notice that the answer is overdue")
+		if timeout == nil {
+			continue
+		}
+		phi, isPhi := stripConv(timeout).(*ssa.Phi)
+		doubled, capped := false, false
+		if isPhi && phi.Block() == loop.header {
+			for b := range loop.blocks {
+				for _, in := range b.Instrs {
+					bo, ok := in.(*ssa.BinOp)
+					if !ok {
+						continue
+					}
+					if bo.Op == token.MUL && (stripConv(bo.X) == ssa.Value(phi) || stripConv(bo.Y) == ssa.Value(phi)) {
+						if k, isK := constInt(bo.Y); isK && k == 2 {
+							doubled = true
+						}
+						if k, isK := constInt(bo.X); isK && k == 2 {
+							doubled = true
+						}
+					}
+					if _, limit, _, ok := limitCmp(bo); ok && limit == int64(60e9) {
+						capped = true
+					}
+				}
+			}
+		}
+		r.Check(doubled && capped, rule, short(fn)+":interval-law", c.ipos(rd), "the wait interval is loop-carried, doubled and capped at 60 s", "the interval of the wait loop is not a loop-carried value that is doubled and capped at 60 s: the flight is not retransmitted on the schedule the state machines use")
+	}
+	r.Floor(rule, n, 1)
+}
